@@ -78,6 +78,7 @@ impl Src {
                  b <= self.slen(), // OBLG: C12.slice_end_in_range
                  self.is_boundary(a as int), // OBLG: C12.slice_start_on_char_boundary
                  self.is_boundary(b as int), // OBLG: C12.slice_end_on_char_boundary
+        ensures r.blen() == b - a,
     { unimplemented!() }
 
     // `RE.find(&self.src[i..])` (offsets of the match are relative to i)
@@ -131,12 +132,18 @@ impl Src {
 }
 
 impl Str {
+    pub uninterp spec fn blen(&self) -> nat;     // length in bytes
     #[verifier::external_body]
-    pub fn to_string(&self) -> (r: StrBuf) { unimplemented!() }
+    pub fn to_string(&self) -> (r: StrBuf) ensures r.blen() == self.blen() { unimplemented!() }
     #[verifier::external_body]
-    pub fn trim(&self) -> (r: Str) { unimplemented!() }
+    pub fn trim(&self) -> (r: Str) ensures r.blen() <= self.blen() { unimplemented!() }
 }
 impl StrBuf {
+    pub uninterp spec fn blen(&self) -> nat;     // length in bytes
+    #[verifier::external_body]
+    pub fn len(&self) -> (r: usize) ensures r == self.blen() { unimplemented!() }
+    #[verifier::external_body]
+    pub fn clone(&self) -> (r: StrBuf) ensures r == *self { unimplemented!() }
     #[verifier::external_body]
     pub fn new() -> (r: StrBuf) { unimplemented!() }
     #[verifier::external_body]
